@@ -3774,19 +3774,25 @@ class AllConnGraph(nx.DiGraph):
         src_inds_list = self.nodes[node]['attrs'].src_inds_list
         if not src_inds_list:
             return None
-        elif len(src_inds_list) == 1:
-            return src_inds_list[0].shaped_array()
+
+        if len(src_inds_list) == 1:
+            inds = src_inds_list[0]
+            if inds._flat_src or inds._src_shape is None or len(inds._src_shape) < 2:
+                return inds.shaped_array()
+
+        # Apply the indices to an array of flat source positions.  This also covers a single
+        # non-flat index into a multidimensional source, where e.g. an int or index array
+        # selects whole sub-arrays rather than single entries.
+        root = self.get_root(node)
+        root_meta = self.nodes[root]['attrs']
+        if root_meta.distributed:
+            root_shape = root_meta.global_shape
         else:
-            root = self.get_root(node)
-            root_meta = self.nodes[root]['attrs']
-            if root_meta.distributed:
-                root_shape = root_meta.global_shape
-            else:
-                root_shape = root_meta.shape
-            arr = np.arange(shape_to_len(root_shape)).reshape(root_shape)
-            for inds in src_inds_list:
-                arr = inds.indexed_val(arr)
-            return arr
+            root_shape = root_meta.shape
+        arr = np.arange(shape_to_len(root_shape)).reshape(root_shape)
+        for inds in src_inds_list:
+            arr = inds.indexed_val(arr)
+        return np.atleast_1d(arr).ravel()
 
     def convert_get(self, node, val, src_units, tgt_units, src_inds_list=(), units=None,
                     indices=None, get_remote=False):
